@@ -146,6 +146,8 @@ pub struct Stats {
     pub refs_thread: AtomicU64,
     pub refs_process: AtomicU64,
     pub stress_convs: AtomicU64,
+    pub clone_froms: AtomicU64,
+    pub band_checks: AtomicU64,
     pub label_checks: AtomicU64,
     pub mutations: AtomicU64,
     pub reads: AtomicU64,
@@ -761,10 +763,37 @@ impl Ctx<'_> {
             self.w.stats.skipped.fetch_add(1, Ordering::Relaxed);
             return;
         };
-        let obj = wrap(clone_owned(&e.obj));
+        // `consume` = 1: `dst.clone_from(&src)` into the object the destination slot holds (if it
+        // holds one of its own: cloning a slot onto itself stays a plain clone)
+        let into = if op.consume != 0 && op.src != op.slot { self.w.take(op.slot) } else { None };
+        let obj = match into {
+            Some(d) => {
+                let mut contended = false;
+                let mut dst = take_owned(d.obj, &mut contended);
+                match (&mut dst, &e.obj) {
+                    (Owned::Y8(a), Obj::Y8(b)) => a.clone_from(b),
+                    (Owned::Y16(a), Obj::Y16(b)) => a.clone_from(b),
+                    (Owned::Rgb(a), Obj::Rgb(b)) => a.clone_from(b),
+                    (Owned::Lin(a), Obj::Lin(b)) => a.clone_from(b),
+                    (Owned::Xyb(a), Obj::Xyb(b)) => a.clone_from(b),
+                    (Owned::Hsl(a), Obj::Hsl(b)) => a.clone_from(b),
+                    _ => dst = clone_owned(&e.obj),
+                }
+                self.w.stats.clone_froms.fetch_add(1, Ordering::Relaxed);
+                wrap(dst)
+            }
+            None => wrap(clone_owned(&e.obj)),
+        };
         let now = obj.val();
         if now != *e.val {
-            self.w.violate("I5", "C12", format!("I5:clone:{}", class_name(now.class())), format!("a clone of the object in slot {} exposes different content", op.src), seq, self.tid);
+            self.w.violate(
+                "I5",
+                "C12",
+                format!("I5:clone:{}", class_name(now.class())),
+                format!("a clone{} of the object in slot {} exposes {} instead of {}", if op.consume != 0 { " (clone_from)" } else { "" }, op.src, now.brief(), e.val.brief()),
+                seq,
+                self.tid,
+            );
         }
         let phys = obj.phys().map(Arc::new);
         self.w.put(op.slot, Entry { obj, val: Arc::clone(&e.val), phys });
@@ -858,6 +887,78 @@ fn one_pixel_input(input: &Val, x: usize, y: usize) -> Option<Val> {
         }
         Val::Flt { class, w, t, p, bits, .. } => Val::Flt { class: *class, w: 1, h: 1, t: *t, p: *p, bits: vec![bits[y * w + x]] },
     })
+}
+
+/// Rows r0..r1 of a logical image as an image of its own (r0, r1 multiples of the vertical
+/// subsampling for YUV).
+fn row_band(v: &Val, r0: usize, r1: usize) -> Val {
+    match v {
+        Val::Flt { class, w, t, p, bits, .. } => Val::Flt { class: *class, w: *w, h: r1 - r0, t: *t, p: *p, bits: bits[r0 * w..r1 * w].to_vec() },
+        Val::Yuv { ty, cfg, planes } => {
+            let cut = |pv: &PlaneVal, ss: usize| PlaneVal { w: pv.w, h: (r1 >> ss) - (r0 >> ss), xdec: pv.xdec, ydec: pv.ydec, s: pv.s[(r0 >> ss) * pv.w..(r1 >> ss) * pv.w].to_vec() };
+            let ss = cfg.ssy as usize;
+            Val::Yuv { ty: *ty, cfg: *cfg, planes: [cut(&planes[0], 0), cut(&planes[1], ss), cut(&planes[2], ss)] }
+        }
+    }
+}
+/// Two results stacked vertically (the inverse of `row_band` on the output side).
+fn stack_rows(a: &Val, b: &Val) -> Option<Val> {
+    match (a, b) {
+        (Val::Flt { class, w, h, t, p, bits }, Val::Flt { class: c2, w: w2, h: h2, t: t2, p: p2, bits: b2 }) if (class, w, t, p) == (c2, w2, t2, p2) => {
+            let mut all = bits.clone();
+            all.extend_from_slice(b2);
+            Some(Val::Flt { class: *class, w: *w, h: h + h2, t: *t, p: *p, bits: all })
+        }
+        (Val::Yuv { ty, cfg, planes }, Val::Yuv { ty: ty2, cfg: cfg2, planes: p2 }) if ty == ty2 && cfg == cfg2 => {
+            let join = |x: &PlaneVal, y: &PlaneVal| -> Option<PlaneVal> {
+                if (x.w, x.xdec, x.ydec) != (y.w, y.xdec, y.ydec) {
+                    return None;
+                }
+                let mut s = x.s.clone();
+                s.extend_from_slice(&y.s);
+                Some(PlaneVal { w: x.w, h: x.h + y.h, xdec: x.xdec, ydec: x.ydec, s })
+            };
+            Some(Val::Yuv { ty: *ty, cfg: *cfg, planes: [join(&planes[0], &p2[0])?, join(&planes[1], &p2[1])?, join(&planes[2], &p2[2])?] })
+        }
+        _ => None,
+    }
+}
+
+/// I4b (C11): a conversion of the whole image equals the conversions of two horizontal bands of
+/// it, stacked. For images too large to decompose pixel by pixel this is what "output pixel i
+/// depends only on input pixel i" can still be held against: every pixel is compared, and a
+/// defect tied to a position in the buffer (a block boundary, a chunk tail) moves with the band.
+pub fn band_check(input: &Val, op: &Op, out: &Val, stats: &Stats) -> Option<(String, String)> {
+    let canon = conv_canon(op.which);
+    let cs = CONVS[canon as usize];
+    let (w, h) = input.dims();
+    if w * h <= 20 || (cs.needs_cfg && cfg_has_unspecified(op.cfg)) {
+        return None; // small images are decomposed completely; Unspecified resolution depends on the size
+    }
+    let ss_in = match input {
+        Val::Yuv { cfg, .. } => cfg.ssy as usize,
+        Val::Flt { .. } => 0,
+    };
+    let ss_out = if cs.needs_cfg { op.cfg.ssy as usize } else { 0 };
+    let unit = 1usize << ss_in.max(ss_out);
+    if h < 2 * unit || h % unit != 0 {
+        return None;
+    }
+    // the cut: anywhere, in units of the vertical subsampling, drawn from the op's data seed
+    let cuts = h / unit - 1;
+    let r = unit * (1 + (crate::rng::mix(op.dataseed ^ 0x3333, (w * h) as u64) % cuts as u64) as usize);
+    let (top, bottom) = (row_band(input, 0, r), row_band(input, r, h));
+    stats.band_checks.fetch_add(1, Ordering::Relaxed);
+    let (a, b) = (ref_eval(&top, op), ref_eval(&bottom, op));
+    let fail = |k: &str, m: String| Some((format!("I4:{k}:{}", cs.name), m));
+    match (&a, &b) {
+        (Outcome::Ok(va), Outcome::Ok(vb)) => match stack_rows(va, vb) {
+            Some(st) if vals_agree(out, &st, input) => None,
+            Some(_) => fail("bands", format!("{}: the {w}x{h} image converted whole differs from its rows 0..{r} and {r}..{h} converted separately and stacked", cs.name)),
+            None => fail("bands-shape", format!("{}: the two bands of the {w}x{h} image (cut at row {r}) convert to results that do not fit together", cs.name)),
+        },
+        _ => fail("bands-outcome", format!("{}: the whole {w}x{h} image converts, its bands (cut at row {r}) give {} and {}", cs.name, a.brief(), b.brief())),
+    }
 }
 
 /// I4 (C11): dimensions, pointwise, subsampling relations. Returns (key, message) of the first failure.
